@@ -191,6 +191,36 @@ func checkCircularLigate(c *Ctx, cl, rl, gc *ssa.Function) {
 	}
 	_, chMake := ch.(*ssa.MakeChan)
 	_, resMake := res.(*ssa.MakeChan)
+	if a, isLocal := res.(*ssa.Alloc); isLocal && !resMake {
+		// the collector fills a local of CircularLigate through a pointer: reading that local needs a
+		// happens-before edge FROM the collector (a receive on a channel it sends on or closes, or a Wait on a
+		// WaitGroup it is Done with); waiting for the workers and closing their channel orders nothing after it
+		synced := false
+		for k, arg := range collGos[0].Call.Args {
+			av := unwrap(arg)
+			if k >= len(gc.Params) {
+				continue
+			}
+			switch {
+			case isChanType(av.Type()) && av != ch:
+				eachInstr(cl, func(i ssa.Instruction) {
+					if u, ok := i.(*ssa.UnOp); ok && u.Op.String() == "<-" && u.X == av {
+						synced = true
+					}
+				})
+			case strings.Contains(tname(av.Type()), "sync.WaitGroup") && av != wg:
+				eachInstr(cl, func(i ssa.Instruction) {
+					if call, ok := i.(*ssa.Call); ok && calleeName(call) == "(*sync.WaitGroup).Wait" && unwrap(call.Call.Args[0]) == av {
+						synced = true
+					}
+				})
+			}
+		}
+		if !synced {
+			c.bad("CHANLIFE", "CircularLigate:result read only after the collector has finished", collGos[0].Pos(), "the collector goroutine fills "+a.Comment+" through a pointer and CircularLigate reads it without any synchronisation with that goroutine (waiting for the workers and closing their channel does not wait for the collector): the last construct(s) can be missing from the result, and the read races with the append")
+			return
+		}
+	}
 	c.checkShape(okWire && chMake && resMake, "CHANLIFE", "CircularLigate:one WaitGroup, one construct channel shared by workers and collector", cl.Pos(), "all workers get the same wg and channel; the collector reads that channel", "workers and collector are not visibly wired to one WaitGroup / one construct channel created here")
 	if !(okWire && chMake && resMake) {
 		return
@@ -697,23 +727,27 @@ func checkCloseOnceOnPath(c *Ctx, f *ssa.Function, tb *TermBuilder, in, out *ssa
 			cls = append(cls, i)
 		}
 	})
-	good := len(sends) == 1 && len(cls) == 1
-	why := fmt.Sprintf("%d sends / %d closes on the result channel, want 1 / 1", len(sends), len(cls))
-	if good {
+	st, why := unknown, fmt.Sprintf("%d sends / %d closes on the result channel, the model needs 1 / 1", len(sends), len(cls))
+	switch {
+	case len(sends) == 0 && len(chanEscapes(f, out, nil)) == 0:
+		st, why = broken, "the collector never sends its result: the caller's receive blocks forever"
+	case len(sends) == 1 && inLoop(sends[0].Block()):
+		st, why = broken, "the collector sends its (partial) result inside the receive loop: the caller gets the list before all constructs have arrived"
+	case len(sends) == 1 && len(cls) <= 1:
 		pc := pathCond(tb, f.Blocks[0], sends[0].Block())
 		more := "extract[1](unop[<-,ok](param[0]))"
-		good = pc.implies(more, true) && sends[0].Block() == cls[0].Block() && domInstr(sends[0], cls[0]) && !inLoop(sends[0].Block())
-		why = "result is sent/closed under " + short(pc.String()) + "; want exactly once when the construct channel is closed (!more), send before close"
-		if good {
-			// after the close the function returns
-			last := sends[0].Block().Instrs[len(sends[0].Block().Instrs)-1]
-			if _, isRet := last.(*ssa.Return); !isRet {
-				good = false
-				why = "the collector keeps running after delivering its result"
-			}
+		switch {
+		case pc.implies(more, false):
+			st, why = broken, "the result is sent while the construct channel is still open (under 'more'), not when it has been closed"
+		case !pc.implies(more, true):
+			why = "result is sent under " + short(pc.String())
+		case len(cls) == 1 && domInstr(cls[0], sends[0]):
+			st, why = broken, "the result channel is closed before the result is sent: the send panics"
+		default:
+			st = holds
 		}
 	}
-	c.check(good, "CHANLIFE", "getConstructs: one send then one close when the input is closed", f.Pos(), "result delivered exactly once, after the last construct", why)
+	c.judge(st, "CHANLIFE", "getConstructs: one send then one close when the input is closed", f.Pos(), "result delivered exactly once, after the last construct", why)
 	// receive is comma-ok in a loop
 	okRecv := false
 	eachInstr(f, func(i ssa.Instruction) {
@@ -721,5 +755,5 @@ func checkCloseOnceOnPath(c *Ctx, f *ssa.Function, tb *TermBuilder, in, out *ssa
 			okRecv = true
 		}
 	})
-	c.check(okRecv, "CHANLIFE", "getConstructs: receives until the channel is closed", f.Pos(), "comma-ok receive in a loop", "the collector does not receive with comma-ok in a loop")
+	c.checkShape(okRecv, "CHANLIFE", "getConstructs: receives until the channel is closed", f.Pos(), "comma-ok receive in a loop", "no comma-ok receive from the construct channel in a loop found")
 }
